@@ -22,8 +22,41 @@ def regen_bins():
         {'args.keepOverBounds': 'keep', 'args.ref_lengths[read.reference_name]': 'reflen'},
         'skip_bin', '(keep : bool) (start end_ reflen : Z)', repo_rel=TABLE)
     chunks.append(t); meta.append(m)
+    t, m = regen_split_call()
+    chunks.append(t); meta.append(m)
     py2coq.write_gen(os.path.join(fw.COQ, 'Gen', 'GenBins.v'), '', chunks)
     return meta
+
+
+SPLIT = 'singlecellmultiomics/bamProcessing/split_double_BAM.py'
+
+
+def regen_split_call():
+    """split_double_BAM.py looks a read's bin up as coordinate_to_bins(DS, binsize, binsize)[0]:
+    translate the call's argument expressions and the constant subscript."""
+    import ast, hashlib
+    path = os.path.join(fw.REPO, SPLIT)
+    src = open(path).read()
+    tree = ast.parse(src)
+    imp = [n for n in ast.walk(tree) if isinstance(n, ast.ImportFrom) and n.module and n.module.endswith('bamToCountTable')
+           and any(a.name == 'coordinate_to_bins' for a in n.names)]
+    if len(imp) != 1:
+        raise py2coq.Untranslatable('split_double_BAM: coordinate_to_bins is not imported from bamToCountTable')
+    subs = [n for n in ast.walk(tree) if isinstance(n, ast.Subscript) and isinstance(n.value, ast.Call)
+            and isinstance(n.value.func, ast.Name) and n.value.func.id == 'coordinate_to_bins']
+    if len(subs) != 1:
+        raise py2coq.Untranslatable('split_double_BAM: expected exactly one subscripted coordinate_to_bins call, found %d' % len(subs))
+    n = subs[0]
+    if not (isinstance(n.slice, ast.Constant) and isinstance(n.slice.value, int) and n.slice.value >= 0) \
+            or len(n.value.args) != 3 or n.value.keywords:
+        raise py2coq.Untranslatable('split_double_BAM: call form outside subset')
+    tr = py2coq.ExprTranslator(env={"R1.get_tag('DS')": 'ds', 'args.binsize': 'binsize'})
+    a = [tr.z(x) for x in n.value.args]
+    seg = ast.get_source_segment(src, n)
+    sha = hashlib.sha256(seg.encode()).hexdigest()
+    text = ('(* source: %s line %d sha256 %s\n   %s *)\nDefinition split_double_bin (ds binsize : Z) : option (Z * Z) :=\n'
+            '  nth_error (t_coordinate_to_bins %s %s %s) %d%%nat.' % (SPLIT, n.lineno, sha, seg, a[0], a[1], a[2], n.slice.value))
+    return text, {'source': SPLIT, 'lines': [n.lineno, n.end_lineno], 'sha256': sha, 'coq': 'split_double_bin'}
 
 
 class Prop(fw.PropBase):
